@@ -149,6 +149,32 @@ fn node(kind: &str, tag: i64, label: &str, kids: Vec<(String, Value)>) -> Value 
     json!([kind, tag, label, kids.into_iter().map(|(s, c)| json!([s, c])).collect::<Vec<_>>()])
 }
 
+/// Declaration-level triggers computed from the AST alone (NOT through the scanners under test):
+/// ANY `@derive(..)` decorator, ANY positional argument naming Serialize/Deserialize; ANY `@route`.
+fn spec_decorator_bits(decorators: &[Spanned<Decorator>], allow_route: bool) -> i64 {
+    use incan_core::lang::decorators::{self as decos, DecoratorId};
+    use incan_core::lang::derives::{self, DeriveId};
+    let mut bits = 0;
+    for d in decorators {
+        match decos::from_str(d.node.name.as_str()) {
+            Some(DecoratorId::Derive) => {
+                for a in &d.node.args {
+                    if let DecoratorArg::Positional(e) = a {
+                        if let Expr::Ident(n) = &e.node {
+                            if matches!(derives::from_str(n.as_str()), Some(DeriveId::Serialize | DeriveId::Deserialize)) {
+                                bits |= 1;
+                            }
+                        }
+                    }
+                }
+            }
+            Some(DecoratorId::Route) if allow_route => bits |= 4,
+            _ => {}
+        }
+    }
+    bits
+}
+
 impl Conv {
     fn new() -> Conv {
         let await_bits = parse_src("def f() -> None:\n  await g\n").map(|p| bits_of(&p)).unwrap_or(0);
@@ -438,6 +464,9 @@ impl Conv {
             mm.methods = vec![sp(only)];
             tag = bits_of(&Program { declarations: vec![sp(Declaration::Model(mm))] });
         }
+        if m.is_async {
+            tag |= 2;
+        }
         let mut k = vec![];
         for p in &m.params {
             if let Some(d) = &p.node.default {
@@ -453,7 +482,12 @@ impl Conv {
     fn decl(&mut self, d: &Declaration) -> (String, Value) {
         match d {
             Declaration::Import(i) => {
-                let tag = bits_of(&Program { declarations: vec![sp(d.clone())] });
+                let mut tag = bits_of(&Program { declarations: vec![sp(d.clone())] });
+                match &i.kind {
+                    ImportKind::Module(p) if p.segments.first().map(|s| s.as_str()) == Some(incan_core::lang::stdlib::STDLIB_WEB) => tag |= 4,
+                    ImportKind::From { module, .. } if module.segments.first().map(|s| s.as_str()) == Some(incan_core::lang::stdlib::STDLIB_WEB) => tag |= 4,
+                    _ => {}
+                }
                 match &i.kind {
                     ImportKind::RustCrate { crate_name, .. } | ImportKind::RustFrom { crate_name, .. } => {
                         ("decl.rust_import".to_string(), node("D.RustImport", tag, crate_name, vec![]))
@@ -471,7 +505,7 @@ impl Conv {
                 for f in alone.fields.iter_mut() {
                     f.node.default = None;
                 }
-                let tag = bits_of(&Program { declarations: vec![sp(Declaration::Model(alone))] });
+                let tag = bits_of(&Program { declarations: vec![sp(Declaration::Model(alone))] }) | spec_decorator_bits(&m.decorators, false);
                 let mut k = vec![];
                 for f in &m.fields {
                     if let Some(dv) = &f.node.default {
@@ -489,7 +523,7 @@ impl Conv {
                 for f in alone.fields.iter_mut() {
                     f.node.default = None;
                 }
-                let tag = bits_of(&Program { declarations: vec![sp(Declaration::Class(alone))] });
+                let tag = bits_of(&Program { declarations: vec![sp(Declaration::Class(alone))] }) | spec_decorator_bits(&c.decorators, false);
                 let mut k = vec![];
                 for f in &c.fields {
                     if let Some(dv) = &f.node.default {
@@ -520,7 +554,9 @@ impl Conv {
                 let mut alone = f.clone();
                 alone.body = vec![];
                 alone.params = vec![];
-                let tag = bits_of(&Program { declarations: vec![sp(Declaration::Function(alone))] });
+                let tag = bits_of(&Program { declarations: vec![sp(Declaration::Function(alone))] })
+                    | spec_decorator_bits(&f.decorators, true)
+                    | if f.is_async { 2 } else { 0 };
                 let mut k = vec![];
                 for p in &f.params {
                     if let Some(dv) = &p.node.default {
